@@ -345,8 +345,9 @@ func init() {
 							add(csi("H_C03", s, cfg, n, c, 0))
 						}
 						if s.nin > 1 {
-							add(csi("H_C03", s, cfg, n, 0, 1))
-							add(csi("H_C03", s, cfg, n, 0, 2))
+							for sk := 1; sk <= 4; sk++ {
+								add(csi("H_C03", s, cfg, n, 0, sk))
+							}
 						}
 					}
 				}
@@ -416,6 +417,7 @@ func init() {
 					out = append(out, cc)
 				}
 			}
+			out = append(out, decoReuseCases(tier)...)
 			for _, s := range stratSpecs {
 				for i, cfg := range s.cfgs {
 					if i > 0 && tier != "thorough" {
@@ -433,4 +435,27 @@ func init() {
 			return out
 		},
 	}
+}
+
+// decoReuseCases: compound / decorator instances are reused across Compute calls.
+func decoReuseCases(tier string) []sym.CaseSpec {
+	var out []sym.CaseSpec
+	for kind := 0; kind <= 6; kind++ {
+		pairs := [][2]int{{2, 3}, {3, 2}}
+		if kind <= 3 {
+			pairs = [][2]int{{1, 2}, {2, 1}}
+			if tier == "thorough" {
+				pairs = append(pairs, [2]int{2, 3})
+			}
+		} else if tier == "thorough" {
+			pairs = append(pairs, [2]int{4, 5}, [2]int{5, 3})
+		}
+		for _, p := range pairs {
+			c := cs("H_C09_Deco", kind, p[0], p[1])
+			c.MaxPaths = 60000
+			c.Weight = 500
+			out = append(out, c)
+		}
+	}
+	return out
 }
